@@ -104,7 +104,16 @@ def call_result_edges(body, call, ok=True):
             if root[0] == "call" and root[1].fn == "core::ops::try_trait::Try::branch":
                 root = unawait(root[2][0])
                 via_try = True
-            if root[0] == "call" and same_call(root[1], call):
+            hit = root[0] == "call" and same_call(root[1], call)
+            if not hit and root[0] == "phi":
+                # the tested Result is one of several alternatives (e.g. the return value of an inlined helper)
+                for alt in flatten_phi(root):
+                    a = unawait(alt)
+                    if a[0] == "call" and a[1].fn == "core::ops::try_trait::Try::branch":
+                        a = unawait(a[2][0])
+                    if a[0] == "call" and same_call(a[1], call):
+                        hit = True
+            if hit:
                 for (t, lab, m) in si["edges"]:
                     ms = m if isinstance(m, tuple) else (m,)
                     good = all(x in pos for x in ms) and ms
